@@ -394,6 +394,8 @@ class Types:
     def base(self, t):
         """C type for a non-reference, non-pointer C++ type string"""
         t0 = strip_cv(t)
+        if t0 in TYPE_ALIASES and TYPE_ALIASES[t0] in BUILTIN:
+            return BUILTIN[TYPE_ALIASES[t0]]      # a unit may narrow a builtin type (long double computed as double), stated in its evidence
         if t0 in BUILTIN:
             return BUILTIN[t0]
         k = norm_class(t0)
@@ -629,6 +631,15 @@ class FnLower:
             if not tagged and cls in self.cfg.ctor_tag:
                 body.append(self.cfg.ctor_tag[cls])
         comp = [c for c in n.get('inner', []) if c.get('kind') in ('CompoundStmt', 'CXXTryStmt')]
+        self.labels = {}
+        def _labels(x):
+            if isinstance(x, dict):
+                if x.get('kind') == 'LabelStmt':
+                    self.labels[x.get('declId')] = x.get('name')
+                for v in x.get('inner', []) or []:
+                    _labels(v)
+        for s in comp:
+            _labels(s)
         for s in comp:
             body += self.stmt(s)
         self.body = body
@@ -1001,6 +1012,20 @@ class FnLower:
         r = ['do', mark, '{']
         r += ['  ' + l for l in bl]
         r.append('} while (%s);' % ce)
+        return r
+
+    def s_GotoStmt(self, n):
+        # C has goto: the label name is looked up among the LabelStmt nodes of the function
+        tgt = n.get('targetLabelDeclId')
+        name = self.labels.get(tgt)
+        if name is None:
+            self.brk(n, 'goto to an unknown label')
+        return ['goto %s;' % name]
+
+    def s_LabelStmt(self, n):
+        r = ['%s: ;' % n['name']]
+        for c in n.get('inner', []):
+            r += self.stmt(c)
         return r
 
     def s_BreakStmt(self, n):
@@ -1472,7 +1497,10 @@ class FnLower:
         ea, eb = self.expr(a), self.expr(b)
         if op == ',':
             return '(%s, %s)' % (ea, eb)
-        if self.cfg.uf_ops and self.T.c(n['type']) in ('double', 'float'):
+        if getattr(self.cfg, 'uf_int_ops', None) and op in self.cfg.uf_int_ops and self.T.c(n['type']) in ('unsigned long', 'unsigned int', 'long', 'int') \
+                and (not getattr(self.cfg, 'uf_names', None) or re.search(self.cfg.uf_names, ea + ' ' + eb)):
+            return '%s(%s, %s)' % (self.cfg.uf_int_ops[op], ea, eb)      # integer operator abstracted for this function (the unit states the axioms)
+        if self.cfg.uf_ops and self.T.c(n['type']) in ('double', 'float') and (not getattr(self.cfg, 'uf_names', None) or re.search(self.cfg.uf_names, ea + ' ' + eb)):
             # arithmetic abstraction (stated in the unit): the operator is an uninterpreted function of its operands
             if op in self.cfg.uf_ops:
                 return '%s(%s, %s)' % (self.cfg.uf_ops[op], ea, eb)
